@@ -12,6 +12,7 @@ import (
 	"encoding/json"
 	"errors"
 	"fmt"
+	"math/rand"
 	"net"
 	"os"
 	"runtime"
@@ -470,6 +471,20 @@ func TestVerifGME(t *testing.T) {
 	enc := json.NewEncoder(bw)
 	rd := bufio.NewReaderSize(fi, 1<<20)
 	ns, ne := 0, 0
+	if os.Getenv("VERIF_JITTER") != "" {
+		// binary built with the yield rewrite: sleep at random in front of lock acquisitions (monitor vs reports vs updates)
+		var jmu sync.Mutex
+		jr := rand.New(rand.NewSource(7))
+		verifYieldFn = func(site string) {
+			jmu.Lock()
+			x := jr.Intn(100)
+			jmu.Unlock()
+			if x < 50 {
+				time.Sleep(time.Duration(50+x*20) * time.Microsecond)
+			}
+		}
+		defer func() { verifYieldFn = nil }()
+	}
 	for {
 		line, err := rd.ReadBytes('\n')
 		if len(strings.TrimSpace(string(line))) > 0 {
